@@ -11,6 +11,11 @@
 
 #include "outqueue.h"
 
+#ifdef TUKAANI_PROJECT_XZ_VERIF
+void (*lzma_verif_mt_event)(unsigned ev, const void *p,
+		uint64_t a, uint64_t b, uint64_t c) = NULL;
+#endif
+
 
 /// Get the maximum number of buffers that may be allocated based
 /// on the number of threads. For now this is twice the number of threads.
@@ -210,6 +215,9 @@ lzma_outq_get_buf(lzma_outq *outq, void *worker)
 	buf->uncompressed_size = 0;
 
 	++outq->bufs_in_use;
+#ifdef TUKAANI_PROJECT_XZ_VERIF
+	VERIF_MT_EV(300, buf, buf->allocated, lzma_outq_outbuf_memusage(buf->allocated), outq->bufs_in_use);
+#endif
 	outq->mem_in_use += lzma_outq_outbuf_memusage(buf->allocated);
 
 	return buf;
@@ -262,6 +270,9 @@ lzma_outq_read(lzma_outq *restrict outq,
 	// Remember the return value.
 	const lzma_ret finish_ret = buf->finish_ret;
 
+#ifdef TUKAANI_PROJECT_XZ_VERIF
+	VERIF_MT_EV(301, buf, finish_ret, buf->pos, 0);
+#endif
 	// Free this buffer for further use.
 	move_head_to_cache(outq, allocator);
 	outq->read_pos = 0;
@@ -276,6 +287,9 @@ lzma_outq_enable_partial_output(lzma_outq *outq,
 {
 	if (outq->head != NULL && !outq->head->finished
 			&& outq->head->worker != NULL) {
+#ifdef TUKAANI_PROJECT_XZ_VERIF
+		VERIF_MT_EV(302, outq->head->worker, 0, 0, 0);
+#endif
 		enable_partial_output(outq->head->worker);
 
 		// Set it to NULL since calling it twice is pointless.
